@@ -946,6 +946,8 @@ declcommon(struct scope *s, enum declkind kind, char *name, char *asmname, struc
 				error(&tok.loc, "'%s' redeclared with different kind", name);
 			if (prior->linkage != linkage)
 				error(&tok.loc, "%s '%s' redeclared with different linkage", kindstr, name);
+			if (kind == DECLOBJECT && (prior->u.obj.storage == SDTHREAD) != !!(sc & SCTHREADLOCAL))
+				error(&tok.loc, "object '%s' redeclared with different storage duration", name);
 			if (!typecompatible(t, prior->type) || tq != prior->qual)
 				error(&tok.loc, "%s '%s' redeclared with incompatible type", kindstr, name);
 			if (!asmname)
